@@ -358,18 +358,19 @@ func forEachMediaRange(header []byte, functor func([]byte)) {
 			// Complex case. We need to keep track of quotes and quoted-pairs (i.e.,  characters escaped with \ )
 		loop:
 			for n < len(header) {
-				switch header[n] {
-				case ',':
+				switch c := header[n]; {
+				case escaping:
+					// the character of a quoted-pair, whatever it is; the next one is ordinary again
+					escaping = false
+				case c == ',':
 					if quotes%2 == 0 {
 						break loop
 					}
-				case '"':
-					if !escaping {
-						quotes++
-					}
-				case '\\':
+				case c == '"':
+					quotes++
+				case c == '\\':
 					if quotes%2 == 1 {
-						escaping = !escaping
+						escaping = true
 					}
 				}
 				n++
